@@ -164,7 +164,7 @@ class Machine(object):
     if "h" in op:
       ev["h"] = op["h"]
     live = dict()
-    eig0 = (world.EIGSH.calls, world.EIGSH.forced)
+    eig0 = (world.EIGSH.calls, world.EIGSH.forced, world.EIGSH.eigh_forced)
     hh = self.handles.get(op.get("h"))
     if hh is not None and hh.est is not None:
       try:
@@ -180,6 +180,7 @@ class Machine(object):
       ev["eigsh"] = [world.EIGSH.calls - eig0[0], world.EIGSH.forced - eig0[1]]
       self.cov["eigsh_calls"] += ev["eigsh"][0]
       self.cov["eigsh_forced_noconv"] += ev["eigsh"][1]
+      self.cov["eigh_forced_linalgerror"] += world.EIGSH.eigh_forced - eig0[2]
     self.cov["op_" + kind] += 1
     return ev, live
 
